@@ -125,6 +125,9 @@ META["rule"] += (
 META["rule"] += (
     " " + 'Added after the sixth round: a fifth of the CouplingAnalysis objects get [time, lat, lon] fields, C- or Fortran-ordered; the pure-Python MI twin with 16 .. 32 bins.')
 
+META["rule"] += (
+    " " + "Added after the eighth round: self entries of the information transfer in lag mode 'all' compared wherever the reference is defined; one data object serves all four climate networks (any order) in half of the cases.")
+
 # --------------------------------------------------------------------------
 # helpers
 # --------------------------------------------------------------------------
@@ -1152,7 +1155,11 @@ def fam_it(ctx, mods, r, k, cid):
         else:
             F = RI.copy()
             F[~offd, 0] = 0.0       # documented: diagonal set to zero
-            F[~offd, 1:] = np.nan
+            # (the transfer of a series to itself at lags beyond its own
+            #  conditioning past is an entry like any other; where the
+            #  lagged series is one of the conditions the reference has NaN)
+            ctx.count("it_gauss_all_self_entries_compared",
+                      int(np.isfinite(F[~offd, 1:]).sum()))
             nbad, mx, idx = worst(res, F, TOL_R, 1e-5)
             ctx.maxstat("it_gauss_all_max_err", mx if nbad >= 0 else 0)
             if nbad:
@@ -1204,11 +1211,12 @@ def clim_reference(kind, anom):
 
 
 def build_net(ctx, mods, kind, obs, lat, lon, tc, winter, anomalies=False,
-              non_local=False):
+              non_local=False, cd=None):
     """(how the links are drawn - threshold, suppression of local links - is
     no business of the similarity estimate the object reports)"""
     cls = mods[kind]
-    cd = make_climate_data(mods, obs, lat, lon, tc, anomalies)
+    if cd is None:
+        cd = make_climate_data(mods, obs, lat, lon, tc, anomalies)
     ok, net = ctx.call(cls, data=cd, threshold=0.3, winter_only=winter,
                        non_local=non_local, silence_level=3)
     if ok and non_local:
@@ -1294,7 +1302,15 @@ def fam_clim(ctx, mods, r, k, cid):
                         ctx.violation(f"CoupledTsonisClimateNetwork.{nm}:"
                                       "differs", {**case, "n1": n1, "at": idx},
                                       cid)
-    for kind in ("Tsonis", "Spearman", "PartialCorrelation", "MutualInfo"):
+    # (one data object serves all the networks of a study in half of the
+    #  cases, in any order)
+    kinds = ["Tsonis", "Spearman", "PartialCorrelation", "MutualInfo"]
+    one_cd = None
+    if r.random() < 0.5:
+        one_cd = make_climate_data(mods, obs, lat, lon, tc, anomalies_flag)
+        kinds = [kinds[i] for i in r.permutation(4)]
+        ctx.count("clim_one_data_object_for_all_networks")
+    for kind in kinds:
         cname = f"{kind}ClimateNetwork"
         R, tol, tag = clim_reference(kind, A)
         if R is None:
@@ -1303,7 +1319,8 @@ def fam_clim(ctx, mods, r, k, cid):
             continue
         sig_tag = tag if kind in ("Spearman", "PartialCorrelation") else ""
         ok, net = build_net(ctx, mods, kind, obs, lat, lon, tc, winter,
-                            anomalies_flag, non_local=bool(r.random() < 0.3))
+                            anomalies_flag, non_local=bool(r.random() < 0.3),
+                            cd=one_cd)
         ctx.evals()
         if not ok:
             ctx.violation(f"{cname}.__init__{sig_tag}:raises:"
